@@ -73,6 +73,20 @@ Theorem C17_cli_pinned_refuted :
 Proof. exact cli_mesh_pinned_refuted. Qed.
 Print Assumptions C17_cli_pinned_refuted.
 
+(* the table of the three mesh options (C04's mesh option matrix runs it exhaustively against the command line): a pair holding
+   the same mesh, the second stored with another space dimension / in another order / with an unconnected point, fails iff an
+   option switches off the very mechanism the pair needs — given what extension, stripping and sorting achieve on the pair *)
+Theorem C17_mesh_option_table : forall eq v (dim3 perm ghost lucky dd dr dor : bool),
+  (space_dim (fst (lv_as_is v)) =? space_dim (snd (lv_as_is v))) = negb dim3 ->
+  eq (fst (lv_as_is v)) (snd (lv_as_is v)) = negb dim3 && negb perm && negb ghost ->
+  eq (fst (lv_extended v)) (snd (lv_extended v)) = (negb dim3 || negb dd) && negb perm && negb ghost ->
+  eq (fst (lv_sorted_points v)) (snd (lv_sorted_points v))
+    = (negb dim3 || negb dd) && (negb ghost || negb dor) && (negb perm || lucky) ->
+  eq (fst (lv_sorted_cells v)) (snd (lv_sorted_cells v)) = (negb dim3 || negb dd) && (negb ghost || negb dor) ->
+  cli_mesh_fixed eq dd dr false v = negb ((dim3 && dd) || (perm && dr) || (ghost && (dr || dor))).
+Proof. exact ladder_option_table. Qed.
+Print Assumptions C17_mesh_option_table.
+
 Example C17_nonvacuous :
   let M := {| pts := [[1#1; 2#1]; [3#1; 4#1]]; cells := [(3, [[0;1]])] |} in
   pts (extend_points 3 M) = [[1#1; 2#1; 0#1]; [3#1; 4#1; 0#1]] /\
